@@ -243,6 +243,13 @@ impl VxAttrs {
     // `attrs.get(key) == Some(&"1".to_string())`
     #[verifier::external_body]
     pub fn vx_flag(&self, key: &str) -> (r: bool) ensures r == (self.a(key@) == Some("1"@)) { unimplemented!() }
+    // HashMap::with_capacity / insert (first half of the reader)
+    #[verifier::external_body]
+    pub fn vx_new() -> (r: VxAttrs) ensures forall|k: Seq<char>| r.a(k) is None { unimplemented!() }
+    #[verifier::external_body]
+    pub fn insert(&mut self, k: String, v: String) -> (r: Option<String>)
+        ensures forall|q: Seq<char>| #[trigger] final(self).a(q) == (if q == k@ { Some(v@) } else { old(self).a(q) }),
+    { unimplemented!() }
 }
 #[verifier::external_body]
 pub fn vx_str_is_one(s: &String) -> (r: bool) ensures r == (s@ == "1"@) { unimplemented!() }
@@ -307,6 +314,109 @@ impl Filter {
 //@|        r is Ok ==> filter_wf(&r->Ok_0) && (r->Ok_0.payload_as_regex is Some ==> sre_ci_literal(&r->Ok_0.payload_as_regex->Some_0) == r->Ok_0.payload->Some_0@), // O:dlf.wf (the filter is well-formed for Filter::matches: a literal payload text is matched ignoring case only if the file says so)
 //@ end
 }
+
+// ---- first half of the DLF reader: the quick_xml event loop that collects the child elements of <filter> into the map ----
+// R12: the reader as a script of events. Start / End carry the element's local name, Text its unescaped text (None: unescaping fails).
+pub enum XEv { Start(Seq<char>), Text(Option<Seq<char>>), End(Seq<char>), Eof, Other, Fail }
+#[verifier::external_body]
+pub struct VxXmlErr { _p: u8 }
+#[verifier::external_body]
+pub struct VxXmlName { _p: u8 }
+impl VxXmlName {
+    pub uninterp spec fn name(&self) -> Seq<char>;
+    // `e.local_name().as_ref() == b"filter"` (as a pattern)
+    #[verifier::external_body]
+    pub fn vx_is_filter(&self) -> (r: bool) ensures r == (self.name() == "filter"@) { unimplemented!() }
+    // `String::from_utf8_lossy(e.local_name().as_ref()).into_owned()`
+    #[verifier::external_body]
+    pub fn vx_name_string(&self) -> (r: String) ensures r@ == self.name() { unimplemented!() }
+}
+#[verifier::external_body]
+pub struct VxXmlText { _p: u8 }
+#[verifier::external_body]
+pub struct VxXmlCow { _p: u8 }
+impl VxXmlCow {
+    pub uninterp spec fn text(&self) -> Seq<char>;
+    #[verifier::external_body]
+    pub fn to_string(&self) -> (r: String) ensures r@ == self.text() { unimplemented!() }
+}
+impl VxXmlText {
+    pub uninterp spec fn unesc(&self) -> Option<Seq<char>>;
+    #[verifier::external_body]
+    pub fn unescape(&self) -> (r: Result<VxXmlCow, VxXmlErr>) ensures r is Ok <==> self.unesc() is Some, r is Ok ==> r->Ok_0.text() == self.unesc()->Some_0 { unimplemented!() }
+}
+pub enum VxXmlEv { Start(VxXmlName), Text(VxXmlText), End(VxXmlName), Eof, Other(u8) }
+#[verifier::external_body]
+pub struct VxXmlReader { _p: u8 }
+impl VxXmlReader {
+    pub uninterp spec fn script(&self) -> Seq<XEv>;
+    #[verifier::external_body]
+    pub fn vx_next_event(&mut self) -> (r: Result<VxXmlEv, VxXmlErr>)
+        ensures
+            old(self).script().len() == 0 ==> r is Err && final(self).script() == old(self).script(),
+            old(self).script().len() > 0 ==> final(self).script() == old(self).script().skip(1) && (match old(self).script()[0] {
+                XEv::Start(n) => r is Ok && r->Ok_0 is Start && r->Ok_0->Start_0.name() == n,
+                XEv::Text(t) => r is Ok && r->Ok_0 is Text && r->Ok_0->Text_0.unesc() == t,
+                XEv::End(n) => r is Ok && r->Ok_0 is End && r->Ok_0->End_0.name() == n,
+                XEv::Eof => r is Ok && r->Ok_0 is Eof,
+                XEv::Other => r is Ok && r->Ok_0 is Other,
+                XEv::Fail => r is Err,
+            }),
+    { unimplemented!() }
+}
+#[verifier::external_body]
+pub fn vx_xml_missing_end() -> (r: VxXmlErr) { unimplemented!() }
+// oracle: what the first n events say - element name -> text of the Text event that follows its Start (a later one wins); `pending` is
+// the element whose text is still awaited
+pub struct Collected { pub m: Map<Seq<char>, Seq<char>>, pub pending: Option<Seq<char>> }
+pub open spec fn collect(evs: Seq<XEv>, n: int) -> Collected
+    decreases n
+{
+    if n <= 0 { Collected { m: Map::empty(), pending: None } }
+    else {
+        let c = collect(evs, n - 1);
+        match evs[n - 1] {
+            XEv::Start(name) => if name == "filter"@ { c } else { Collected { pending: Some(name), ..c } },
+            XEv::Text(Some(t)) => if c.pending is Some { Collected { m: c.m.insert(c.pending->Some_0, t), pending: None } } else { c },
+            _ => c,
+        }
+    }
+}
+pub open spec fn attrs_are(a: &VxAttrs, m: Map<Seq<char>, Seq<char>>) -> bool { forall|k: Seq<char>| #[trigger] a.a(k) == (if m.dom().contains(k) { Some(m[k]) } else { None::<Seq<char>> }) }
+//@ extract src/filter/filter_impl.rs region `let mut buf = Vec::new();` .. `loop { match reader.read_event_into(&mut buf) {` in Filter::from_quick_xml_reader
+//@   sig #[verifier::loop_isolation(false)] #[verifier::allow_complex_invariants] pub fn dlf_collect(reader: &mut VxXmlReader) -> (r: Result<(VxAttrs, Ghost<int>), VxXmlErr>)
+//@   tail `Ok((attrs, Ghost(n_ev)))`
+//@   sub R12 `let mut buf = Vec::new();` => `let mut buf: Vec<u8> = Vec::new();`
+//@   sub R12 `std::collections::HashMap::<String, String>::with_capacity(32)` => `VxAttrs::vx_new()`
+//@   sub R12 `reader.read_event_into(&mut buf)` => `reader.vx_next_event()`
+//@   sub R12 `quick_xml::events::Event::` => `VxXmlEv::` *
+//@   sub R12 `match e.local_name().as_ref() { b"filter" => {}` => `match e.vx_is_filter() { true => {}` ?
+//@   sub R12 `if let b"filter" = e.local_name().as_ref() {` => `if e.vx_is_filter() {` ?
+//@   sub R12 `String::from_utf8_lossy(e.local_name().as_ref()).into_owned()` => `e.vx_name_string()`
+//@   sub R12 `.unwrap().to_string()` => `.unwrap()` ?
+//@   sub R12 `let mut last_entry = None;` => `let mut last_entry: Option<String> = None;`
+//@   sub R12 `quick_xml::Error::IllFormed( quick_xml::errors::IllFormedError::MissingEndTag(vx_opaque_string()), )` => `vx_xml_missing_end()`
+//@   spec
+//@|    ensures
+//@|        r is Ok ==> 0 < r->Ok_0.1@ <= old(reader).script().len() && final(reader).script() == old(reader).script().skip(r->Ok_0.1@)
+//@|            && old(reader).script()[r->Ok_0.1@ - 1] == XEv::End("filter"@)
+//@|            && attrs_are(&r->Ok_0.0, collect(old(reader).script(), r->Ok_0.1@).m), // O:dlf.collect (the map handed to the second half has, for every child element of <filter> up to its end tag, the element's text - and nothing else)
+//@   hint after `let mut last_entry`
+//@|    let ghost ev0 = reader.script();
+//@|    let ghost mut n_ev: int = 0;
+//@   hint before `break;`
+//@|    proof { if n_ev < ev0.len() { assert(ev0.skip(n_ev).skip(1) =~= ev0.skip(n_ev + 1)); n_ev = n_ev + 1; } }
+//@   hint before `buf.clear();`
+//@|    proof { if n_ev < ev0.len() { assert(ev0.skip(n_ev).skip(1) =~= ev0.skip(n_ev + 1)); n_ev = n_ev + 1; } }
+//@   loop inner `reader.vx_next_event()`
+//@|    invariant
+//@|        0 <= n_ev <= ev0.len(), reader.script() == ev0.skip(n_ev), ev0 == old(reader).script(),
+//@|        attrs_are(&attrs, collect(ev0, n_ev).m), // O:dlf.collect.inv
+//@|        (match last_entry { Some(s) => collect(ev0, n_ev).pending == Some(s@), None => collect(ev0, n_ev).pending is None }), // O:dlf.collect.inv.pending (an element waits for at most one text: the one right after its start tag)
+//@|    ensures
+//@|        0 < n_ev <= ev0.len(), reader.script() == ev0.skip(n_ev), ev0[n_ev - 1] == XEv::End("filter"@), attrs_are(&attrs, collect(ev0, n_ev).m),
+//@|    decreases ev0.len() - n_ev,
+//@ end
 
 // ---- front-end equivalence, DLF and JSON (the property's second sentence for these two) ----
 // A JSON document that says what a dlt-viewer filter element says: the kind, the enabled flag, each enabled id criterion with its
